@@ -2195,6 +2195,16 @@ func (q *QueuedState) Encode() []byte {
 	return w.bytes()
 }
 
+// boundedCap limits a capacity hint taken from an untrusted count field to the number of
+// entries the remaining input can actually hold (minEntrySize = length prefix + smallest
+// decodable entry), so that a short frame cannot request a huge allocation.
+func boundedCap(count, remaining, minEntrySize int) int {
+	if max := remaining / minEntrySize; count > max {
+		return max
+	}
+	return count
+}
+
 // DecodeQueuedState deserializes QueuedState from bytes.
 func DecodeQueuedState(buf []byte) (*QueuedState, error) {
 	if len(buf) < 8 { // 2+2+2+1+1 minimum (empty arrays, no commands)
@@ -2206,7 +2216,7 @@ func DecodeQueuedState(buf []byte) (*QueuedState, error) {
 
 	// Routes
 	routeCount := int(r.readUint16())
-	q.Routes = make([]RouteAdvertise, 0, routeCount)
+	q.Routes = make([]RouteAdvertise, 0, boundedCap(routeCount, r.remaining(), 2+28))
 	for i := 0; i < routeCount && r.err == nil; i++ {
 		length := int(r.readUint16())
 		data := r.readBytes(length)
@@ -2222,7 +2232,7 @@ func DecodeQueuedState(buf []byte) (*QueuedState, error) {
 
 	// Withdraws
 	withdrawCount := int(r.readUint16())
-	q.Withdraws = make([]RouteWithdraw, 0, withdrawCount)
+	q.Withdraws = make([]RouteWithdraw, 0, boundedCap(withdrawCount, r.remaining(), 2+26))
 	for i := 0; i < withdrawCount && r.err == nil; i++ {
 		length := int(r.readUint16())
 		data := r.readBytes(length)
@@ -2238,7 +2248,7 @@ func DecodeQueuedState(buf []byte) (*QueuedState, error) {
 
 	// NodeInfos
 	nodeInfoCount := int(r.readUint16())
-	q.NodeInfos = make([]NodeInfoAdvertise, 0, nodeInfoCount)
+	q.NodeInfos = make([]NodeInfoAdvertise, 0, boundedCap(nodeInfoCount, r.remaining(), 2+28))
 	for i := 0; i < nodeInfoCount && r.err == nil; i++ {
 		length := int(r.readUint16())
 		data := r.readBytes(length)
